@@ -10,7 +10,7 @@ P = {
  "C01": ("E: fold of Variance.add/Mean.add = (n, mean, sum (x-mean)^2) for every list; accessors = textbook variances; permutation invariance. R0: sum_2 >= 0 under any monotone rounding. R2: forward-error bound of the running mean (10.1 n u M) for every stream length.",
          "The forward-error envelope is proved (standard model of rounding, no overflow) for mean() and, in C01b, for sum_2 / population_variance / sample_variance of add-only streams (linear in kappa, with an explicit second-order term n^2 u^2 M^2, so the corner n=1e6, kappa=1e12 is covered by the measured envelope only); variance_of_mean and error() follow by one division / square root and are measured. R-carrier theorems assume IEEE rounding is monotone / has relative error <= 2^-53 and no overflow. Correspondence Model[Float]=impl is checked on sampled operations, not proved."),
  "C02": ("E: (canon xs).merge (canon ys) = canon (xs++ys) for Mean..Kurtosis and define_moments! of every order; hence every binary merge tree over every chunking (empty and one-element chunks included) evaluates to canon of the concatenation; total length exact.",
-         "R2 (C02b): the forward-error bound of mean() is proved through every merge tree (11 n u M). For the variance family and higher moments the envelope through merges is measured against the exact oracle, not proved. Correspondence checked on enumerated/sampled trees."),
+         "R2 (C02b, C02c): the forward-error bounds of mean() (11 n u M) and of sum_2 / population_variance / sample_variance (linear in kappa, explicit second-order term) are proved through every merge tree. For the higher moments the envelope through merges is measured against the exact oracle, not proved. Correspondence checked on enumerated/sampled trees."),
  "C03": ("E/Real: Skewness/Kurtosis folds = canon (n, mean, S2, S3, S4); skewness() = m3/m2^1.5, kurtosis() = m4/m2^2-3 for non-zero spread; re-exported accessors = C01's.",
          "Envelope measured, not proved; sqrt modelled as Real.sqrt."),
  "C04": ("E: define_moments! add and merge of arbitrary order N preserve canon (binomial shift lemma, IterBinomial exact); central_moment(p) = m_p, standardized_moment(p) = m_p/sigma^p for all p <= N; agreement with Mean..Kurtosis as a corollary.",
@@ -24,7 +24,7 @@ P = {
  "C08": ("E: weighted mean = sum wx / sum w, sum_weights, sum_weights_sq, effective_len, variance_of_weighted_mean formulas for every stream with non-negative weights and every merge tree; zero-weight observations change only the unweighted part (any position, first included).",
          "Envelope measured, not proved."),
  "C09": ("E/Real: Covariance add/merge preserve canon (means, Sxx, Syy, Sxy) for every list of pairs and every merge tree; normalisations; x/y swap symmetry; |pearson| <= 1 (Cauchy-Schwarz).",
-         "Envelope measured, not proved."),
+         "C09b: forward-error bounds for sum_x_2, sum_y_2, sum_prod, the variances and covariances of add-only pair streams are proved (standard model of rounding; one first-order term u Mx My that vanishes under IEEE exactness of the first mean); through merges and for pearson the envelope is measured."),
  "C10": ("E/Real: sample_variance = population_variance*n/(n-1) for all five types; variance_of_mean, error; sample_skewness = sqrt(n(n-1))/(n-2) m3/m2^1.5 (n>=3); sample_excess_kurtosis = (n-1)/((n-2)(n-3)) ((n+1)(m4/m2^2-3)+6) (n>=4); small-n sentinels.",
          "Envelope measured; powf(.,1.5) compared within 8 ulp (libm vs C pow)."),
  "C11": ("O (any carrier): merge a new = a and merge new a = a as structure equalities for every state a of every Merge type; len(merge a b) = len a + len b; is_empty iff len = 0; merge returns a new value and cannot modify its argument.",
